@@ -3,8 +3,9 @@
  1. TLC model-checks spec/ReflectorSafety/Isolation.tla (a model of the server's observable state - node tree, indices, per-node subscriber
     marks maintained incrementally, per-session parameters / subscriptions / connectedness, client mirrors - under the commands of an
     unprivileged session drawn from the hostile menu the spec defines, one action per command, handled as StorageReflectSession.cpp handles
-    them): Frame, Erase, OnlySelfLeaves (action properties), MarksExact, MirrorExact, NoTrace, IdxSound, TreeShape, NoPrivilege.  Seven named
-    wrong designs (`Deviations`) must each violate the property they are aimed at (vacuity guards).
+    them): Frame, Erase, OnlySelfLeaves (action properties), MarksExact, MirrorExact, NoTrace, IdxSound, TreeShape, NoPrivilege.  Nine named
+    wrong designs (`Deviations`) must each violate the property they are aimed at (vacuity guards).  Subscriptions may carry a what-code QueryFilter
+    (marks by path only, notification by filter, as coded); SETDATA may carry the quiet flag (the node still gets everybody's marks, the mirrors lag).
  2. spec -> code: TLC dumps the state graph of the same model with RECORD = TRUE; tools/pathcover.py turns it into histories covering EVERY
     transition (all commands of the menu to depth 2, a 16-command menu to depth 3; thorough: the whole menu to depth 3); harness/srv.cpp (asan)
     replays each into an in-process ReflectServer with real StorageReflectSessions over socket pairs and, after EVERY step, compares every
@@ -24,7 +25,8 @@ PROPS = ["Frame", "Erase", "OnlySelfLeaves"]
 # deviation -> (invariants, properties) it must violate, each in a run of its own
 REACH = [("SetDataAbsolute", [], ["Frame"]), ("RemoveFromGlobalRoot", [], ["Frame"]), ("ReorderFromGlobalRoot", [], ["Frame"]),
          ("KickUnprivileged", [], ["OnlySelfLeaves"]), ("DeepMarksStay", ["MarksExact"], []), ("DeepMarksStay", [], ["Erase"]),
-         ("CutNoNotify", ["MirrorExact"], []), ("CutNoNotify", ["NoTrace"], []), ("PrivBitsAccepted", ["NoPrivilege"], [])]
+         ("CutNoNotify", ["MirrorExact"], []), ("CutNoNotify", ["NoTrace"], []), ("PrivBitsAccepted", ["NoPrivilege"], []),
+         ("FilteredMarksStay", ["MarksExact"], []), ("FilteredMarksStay", [], ["Erase"]), ("QuietCreateNoMarks", ["MarksExact"], [])]
 
 
 def cfg(name, steps, dev, record, menu, invs=None, props=None, actors='{"s1"}'):
@@ -204,6 +206,10 @@ def run(v, tier, seed):
         directed = [C("SUBSCRIBE", False, ["*"]), C("SUBSCRIBE", False, ["a", "*"]), C("SETDATA", False, ["a", "b"], pay=2), C("INSERTORDEREDDATA", False, ["a"], x="zz", pay=4),
                     C("REMOVEDATA", False, ["a", "b"]), C("SETDATA", False, ["c"], pay=3), C("SETDATA", True, ["hA", "s2", "a"], pay=9), C("REMOVEDATA", True, ["*", "*", "*"])]
         cuts.append({"id": len(rows), "steps": [{"a": "Cmd", "who": "s1", "cmd": c} for c in directed] + [dep[0]["steps"][0]], "init": init, "cuts": "all"})
+        # ... and one with a node CREATED quietly under other sessions' subscriptions, then updated aloud, and filtered subscriptions whose filter some node fails
+        directed2 = [C("SETDATA", False, ["a", "b"], x="quiet", pay=7), C("SETDATA", False, ["a"], pay=2), C("SETDATA", False, ["a", "b"], pay=7), C("SETDATA", False, ["c"], x="quiet", pay=1),
+                     C("SUBSCRIBE", False, ["a"], pay=2), C("SUBSCRIBE", True, ["*", "*", "c"], pay=1)]
+        cuts.append({"id": len(rows) + 1, "steps": [{"a": "Cmd", "who": "s1", "cmd": c} for c in directed2] + [dep[0]["steps"][0]], "init": init, "cuts": "all"})
         for i, c in enumerate(cuts): c["id"] = len(rows) + i
         samples.append({"kind": "departure with the stream cut after every byte prefix", "steps": brief(cuts[-1]["steps"])})
 
@@ -277,7 +283,7 @@ def run(v, tier, seed):
            "rule": "behaviours = path cover of EVERY transition of the TLC state graph(s) of Isolation (%s), de-duplicated by their command sequence; non-trivial = followed to the end with all monitors silent and the whole observed state equal to the specification's after every step; cut runs = one server instance per (history, byte prefix, write mode); random histories: %d steps, any session acts" % (", ".join("%s: %d edges" % (g["tag"], g["edges"]) for g in gens), ns),
            "exhaustive": True, "model_runs": mc_notes, "samples": samples[:5]}
     assumptions = ["the projection of a session = its subtree with payload what-codes and child indices, its parameters (GetParametersConst and the PR_RESULT_PARAMETERS reply minus the server's clock / memory fields), its SUBSCRIBE: parameters, its being attached; payloads are told apart by their what-code only",
-                   "patterns of the menu use '*', comma lists and literals (clause matching itself is C15's, traversal C05's); no query filters; one spelling per subscription path (F27 is C04's)",
+                   "patterns of the menu use '*', comma lists and literals (clause matching itself is C15's, traversal C05's); query filters are what-code filters, one per subscription path (re-filtering is C04's); one spelling per subscription path (F27 is C04's); where a QUIET change made a mirror lag, that node is exempt from the mirror clause until the mirror agrees again",
                    "ban / require commands are judged by the documented PR_RESULT_ERRORACCESSDENIED reply and by the absence of any state change: sessions over socket pairs have no accept factory whose ban list could be inspected",
                    "cut runs compare the END state (intermediate states of a stream written in one piece are not observable); single-threaded server pumped with ServerProcessLoop(0)"]
     return "model_checking", cov, assumptions
